@@ -373,6 +373,15 @@ def to_case(draw, max_groups=5, max_rows=8, accuracy_bias=False):
                 hi, lo = max(scores[i], other[i]), min(scores[i], other[i])
                 scores[i] = hi if (y == 1) == (direction == "pos") else lo
         rows.extend([g, y, s] for y, s in zip(labels, scores))
+    if draw(st.integers(0, 19)) == 0:
+        # two groups that agree row by row except that some scores -1.0 are -2.0 in the twin (hash(-1.0) == hash(-2.0)
+        # in Python): whatever is remembered about one group must not be used for the other
+        m = draw(st.integers(3, 8))
+        labels = [0, 1] + draw(st.lists(st.integers(0, 1), min_size=m - 2, max_size=m - 2))
+        sc = draw(st.lists(st.sampled_from([-1.0, -1.5, 0.0, -3.0, -1.0]), min_size=m, max_size=m))
+        sc[draw(st.integers(0, m - 1))] = -1.0
+        rows = [[0, y, s] for y, s in zip(labels, sc)] + [[1, y, (-2.0 if s == -1.0 else s)] for y, s in zip(labels, sc)]
+        mode = "hash_twins"
     perm = draw(st.permutations(range(len(rows))))
     case = {"rows": [rows[i] for i in perm], "mode": mode}
     case.update(draw(config(accuracy_bias)))
